@@ -17,6 +17,8 @@ from pathlib import Path
 VERIF = Path(__file__).resolve().parent.parent
 LEAN_DIR = VERIF / "lean"
 REPO = Path(os.environ.get("LITHIUM_REPO", "/repo"))
+# evidence and replay files go to /verif unless a seeded-change run redirects them (tools/seedone.sh, tools/seedpar.sh)
+OUT = Path(os.environ.get("VERIF_OUT", str(VERIF)))
 DRIVER = LEAN_DIR / ".lake" / "build" / "bin" / "driver"
 ALLOWED_AXIOMS = {"propext", "Classical.choice", "Quot.sound"}
 FORBIDDEN = re.compile(
@@ -278,8 +280,8 @@ def load_findings() -> list[dict]:
 
 
 def write_replay(pid: str, payload: dict) -> Path:
-    d = VERIF / "replays"
-    d.mkdir(exist_ok=True)
+    d = OUT / "replays"
+    d.mkdir(parents=True, exist_ok=True)
     digest = hashlib.blake2b(json.dumps(payload, sort_keys=True, default=repr).encode(), digest_size=6).hexdigest()
     path = d / f"{pid}-{digest}.json"
     path.write_text(json.dumps(payload, indent=1, sort_keys=True, default=repr))
@@ -311,8 +313,8 @@ def write_evidence(ctx: Ctx, proof: dict, rule: str, extra: dict | None = None, 
         cov.update(extra)
     ev = dict(property_id=ctx.pid, tier=ctx.tier, seed=ctx.seed, level="proof", coverage=cov,
               assumptions=assumptions or [], wall_s=round(ctx.elapsed(), 2), violations=violations)
-    d = VERIF / "evidence"
-    d.mkdir(exist_ok=True)
+    d = OUT / "evidence"
+    d.mkdir(parents=True, exist_ok=True)
     (d / f"{ctx.pid}.json").write_text(json.dumps(ev, indent=1, default=repr))
 
 
